@@ -217,7 +217,8 @@ class Lowerer:
     def targ(self, c):
         if 'type' in c:
             try:
-                return [type_str(T.parse(c['type']['qualType']))]
+                # const is part of a template argument's identity (Reader<const char*> and Reader<char*> are different records)
+                return [type_str(T.parse_targ_string(c['type']['qualType']))]
             except T.TypeError_:
                 return ['?' + c['type']['qualType']]
         if 'value' in c:
